@@ -19,6 +19,11 @@ def gen() -> schema_gen.Gen:
     return g
 
 
+def name_is_result(cid, f) -> bool:
+    """members the generator keeps object-shaped (an MCP result is an object)"""
+    return f["name"] == "result" and cid in ("JSONRPCResponse", "JSONRPCMessage")
+
+
 def protocol_classes(S) -> list[str]:
     return [cid for cid, c in S.items() if c["protocol"]]
 
@@ -93,6 +98,17 @@ def agree(case, o):
         key = tag or ("digit-string-becomes-int" if digit_string_vs_int(d[1], d[2]) else "dump-differs")
         return (key, f"re-serialised value differs at {d[0]}: {d[1]!r} under pydantic, {d[2]!r} under the fallback",
                 {"dump": p.get("dump")})
+    # the other forms in which the library itself serialises (argument combinations of its dump
+    # sites, the JSON text of the stdio writer), a repeated dump, a repeated validation of the same dict
+    pv, fv = dict(p.get("variants") or {}), dict(f.get("variants") or {})
+    for k in ("second", "from_instance", "input_intact", "reuse_error"):
+        pv[k], fv[k] = p.get(k), f.get(k)
+    for k in sorted(pv):
+        d = first_diff(pv.get(k), fv.get(k))
+        if d:
+            return (tag or f"serialised-form-differs:{k}",
+                    f"{case.get('cls', 'message')}: form '{k}' differs at {d[0]}: {d[1]!r} under pydantic, {d[2]!r} under the fallback",
+                    {k: pv.get(k)})
     return None
 
 
@@ -285,7 +301,7 @@ class ModelCases(Suite):
         S = schema_h.schema()
         G = gen()
         out = []
-        seeds = 4 if budget == "quick" else 40
+        seeds = 3 if budget == "quick" else 40
         for cid in protocol_classes(S):
             rng = ctx.sub_rng(self.name, cid)
             # every optional-field subset (small models) / seeded subsets (large), extras varied
@@ -327,6 +343,58 @@ class ModelCases(Suite):
                     w[G.wire(f)] = v
                     out.append({"cls": cid, "mode": "edge-str", "wire": w})
                 k += 1
+            # directed: the falsy value and the type twins of every declared member's leaf kind (0, 0.0, "",
+            # false, [], {} where the declared type admits them; 7 / 7.0 for numbers, "7" / "true" for
+            # strings), and empty containers
+            for f in S[cid]["fields"]:
+                if cid in ("JSONRPCError", "JSONRPCMessage") and f["name"] == "error":
+                    continue
+                if cid == "Root" and f["name"] == "uri":
+                    continue
+                cons = f.get("constraints") or {}
+                for leaf, mode, pool in [(lk, "falsy", schema_gen.FALSY[lk]) for lk in schema_gen.FALSY] + \
+                                        [(lk, "twin", schema_gen.TWINS[lk]) for lk in schema_gen.TWINS] + [("empty", "falsy", [None])]:
+                    for val in pool:
+                        if leaf in ("float", "int") and cons and not (cons.get("ge", val) <= val <= cons.get("le", val)):
+                            continue
+                        if leaf == "any" and val is None and f["ty"]["k"] in ("any", "opt"):
+                            continue  # null only INSIDE free-form payloads
+                        v = G.with_str(f["ty"], val, leaf)
+                        if v is None and not (leaf == "empty" and f["ty"]["k"] in ("list", "dict")):
+                            break
+                        if leaf == "any" and name_is_result(cid, f) and not isinstance(v, dict):
+                            continue
+                        w = G.obj(cid, rng, present={f["name"]}, extras="none")
+                        if cid == "JSONRPCMessage" and G.wire(f) not in w:
+                            continue
+                        w[G.wire(f)] = v
+                        out.append({"cls": cid, "mode": mode, "wire": w})
+            # directed: large and deep values (long lists, wide objects, deep nesting in free-form payloads)
+            if budget != "quick" or cid in ("ToolResult@protocol.types.tools", "JSONRPCRequest", "CompletionResult", "Tool@protocol.messages.tools.tool"):
+                for f in S[cid]["fields"]:
+                    if cid == "CompletionResult" and f["name"] == "values":
+                        continue
+                    tk = f["ty"]["t"] if f["ty"]["k"] == "opt" else f["ty"]
+                    big = None
+                    if tk["k"] == "list":
+                        item = lambda: G.value(tk["t"], rng, 3, {})  # noqa: E731
+                        big = [item() for _ in range(300)]
+                    elif tk["k"] == "dict" and tk["t"]["k"] == "any":
+                        deep = {"leaf": [1, "x", None]}
+                        for i in range(40):
+                            deep = {"d%d" % i: deep, "l": [deep] if i % 7 == 0 else []}
+                        big = {"wide%d" % i: i for i in range(300)}
+                        big["deep"] = deep
+                        if f["name"] == "error":  # a JSON-RPC error object keeps its code and message
+                            big.update({"code": -32000, "message": "big"})
+                    elif tk["k"] == "str" and not (cid == "Root" and f["name"] == "uri"):
+                        big = "S" * 100_000
+                    if big is not None:
+                        w = G.obj(cid, rng, present={f["name"]}, extras="none")
+                        if cid == "JSONRPCMessage" and G.wire(f) not in w:
+                            continue
+                        w[G.wire(f)] = big
+                        out.append({"cls": cid, "mode": "size", "wire": w})
             # directed: constants harvested from the SOURCE of the class's module (dict keys/values,
             # comparison operands, Literal arguments, defaults) with spelling variants, at every open
             # string position — a hook that rewrites particular values is only hit by those values
@@ -376,12 +444,21 @@ class ModelCases(Suite):
                     rng = ctx.sub_rng(self.name, "reorder", cid)
                     for _ in range(3):
                         out.append({"cls": cid, "mode": "reorder", "wire": G.obj(cid, rng, extras="random")})
+        if budget == "quick":
+            # the other wire forms / reuse observations (7 more dumps, 2 more validations per backend):
+            # every directed case, every third of the bulk modes in the quick tier, all in thorough
+            n = 0
+            for c in out:
+                if c["mode"] in ("random", "none", "magic"):
+                    n += 1
+                    if n % 3:
+                        c["forms"] = False
         return out
 
     attr_name_cases = True
 
     def impl_batch(self, cases):
-        return schema_h.both("validate", [{"cls": c["cls"], "wire": c["wire"]} for c in cases])
+        return schema_h.both("validate", [{"cls": c["cls"], "wire": c["wire"], "forms": c.get("forms", True)} for c in cases])
 
     def model_line(self, case):
         if attr_name_members(case) == "both":
@@ -539,3 +616,81 @@ class FreshOrder(Suite):
         for i in range(len(st) - 1, -1, -1):
             if len(st) > 1:
                 yield {**case, "steps": st[:i] + st[i + 1:]}
+
+
+class Constructors(Suite):
+    """the library's own constructors (every module-level `create_*` helper of the protocol modules
+    and every `create_*` classmethod of a model class, discovered by introspection) called with
+    type-directed arguments — Python values and model INSTANCES, not wire dicts: the instance
+    pass-through, list-of-instances and default-argument branches of both backends"""
+
+    name = "constructors"
+    uses_model = False
+
+    def ctors(self):
+        from . import translate_schema
+
+        return translate_schema.load_views()["fallback"].get("constructors", [])
+
+    def arg(self, G, t, rng, depth=0, pname=""):
+        k = t["k"]
+        if k == "ref":
+            return {"$model": t["cls"], "wire": G.obj(t["cls"], rng, depth=depth + 1, extras=rng.choice(["none", "random"]))}
+        if k == "opt":
+            return self.arg(G, t["t"], rng, depth, pname)
+        if k == "list":
+            items = [self.arg(G, t["t"], rng, depth + 1, pname) for _ in range(rng.randrange(0, 3))]
+            # a tuple where a list is declared (both backends accept sequences from Python callers)
+            return {"$tuple": items} if depth == 0 and rng.random() < 0.25 else items
+        if k == "union":
+            return self.arg(G, rng.choice(t["ts"]), rng, depth, pname)
+        if k == "dict" and t["t"]["k"] != "any":
+            return {kk: self.arg(G, t["t"], rng, depth + 1, pname) for kk in rng.sample(schema_gen.ANY_KEYS, rng.randrange(0, 3))}
+        if k == "str" and pname == "uri" :
+            return "file://" + rng.choice(["/a", "/tmp/x y", "/", ""])
+        if k == "float" and "priority" in pname:
+            return rng.choice([0, 0.0, 1, 1.0, 0.5, 0.25])
+        return G.value(t, rng, depth, {})
+
+    def cases(self, ctx, budget):
+        G = gen()
+        out = []
+        n = 12 if budget == "quick" else 120
+        for c in self.ctors():
+            rng = ctx.sub_rng(self.name, c["module"], c["qual"])
+            if c["qual"] == "create_root":
+                pass
+            for i in range(n):
+                if c.get("returns"):
+                    # a parse_* helper: a spec-valid wire object of (one member of) its return type
+                    r = c["returns"]
+                    m = rng.choice(r["ts"]) if r["k"] == "union" else r
+                    out.append({"module": c["module"], "qual": c["qual"], "returns": m["cls"],
+                                "kwargs": {c["params"][0]["name"]: G.obj(m["cls"], rng, extras=rng.choice(["none", "random", "sibling"]))}})
+                    continue
+                kwargs = {}
+                for p in c["params"]:
+                    # defaults: first call with required arguments only, then every optional one now and then
+                    if p["optional"] and (i == 0 or rng.random() < 0.4):
+                        continue
+                    kwargs[p["name"]] = self.arg(G, p["ty"], rng, 0, p["name"])
+                out.append({"module": c["module"], "qual": c["qual"], "kwargs": kwargs})
+        return out
+
+    def impl_batch(self, cases):
+        return schema_h.both("construct", cases)
+
+    def kind(self, case, o):
+        ok = o["pydantic"].get("ok"), o["fallback"].get("ok")
+        return f"constructors/{case['qual']}/" + ("built" if all(ok) else "raised" if not any(ok) else "split")
+
+    def nontrivial(self, case, o):
+        return bool(o["pydantic"].get("ok") and o["fallback"].get("ok"))
+
+    def shrink_candidates(self, case):
+        kw = case["kwargs"]
+        for k in list(kw):
+            yield {**case, "kwargs": {kk: v for kk, v in kw.items() if kk != k}}
+        for k, v in kw.items():
+            for y in shrink_json(v, frozenset(("$model", "wire")), 1):
+                yield {**case, "kwargs": {**kw, k: y}}
